@@ -26,7 +26,7 @@ LIST_TYPES = {'IDREFS', 'ENTITIES', 'NMTOKENS'}
 # are name characters in no edition.  No colon anywhere (namespace-aware runs).
 NAME_START = 'abcdexyzABQ_éα'
 NAME_REST = NAME_START + '0123456789.-·٠'
-NOT_NAMESTART = '0123456789.-·٠'           # NameChar but not NameStartChar in every edition
+NOT_NAMESTART = '0123456789.-·'            # NameChar but not NameStartChar in every edition (U+0660 is a NameStartChar in the 5th)
 NOT_NAMECHAR = '!#$/(+~@*,;=?^|'                     # not a NameChar in any edition (and harmless inside an attribute value)
 ELEM_NAMES = ['a', 'b', 'c', 'd', 'e', 'f', 'item', 'x1', 'n-a', 'n.b', '_u', 'Bé', 'Q2']
 ATT_NAMES = ['p', 'q', 'r', 's', 'id', 'ref', 'kind', 't-1', '_v', 'w.w']
